@@ -60,7 +60,7 @@ def c14(work, tier, seed, replay):
             evs.append({"a": "grow", "l": "l2", "b": 0, "n": n})
         if j == 2:
             evs = [e for e in evs if e["n"] in (3, 4, 6, 8)]       # bigger jumps: 5 -> 255 -> 256 -> 300 -> 65537
-        chains.append({"id": "chain%d" % j, "store": "sqlfile" if j == 1 else "inmem", "sigma": CH, "types": types, "events": evs})
+        chains.append({"id": "chain%d" % j, "store": "sqlfile" if j == 1 else "inmem", "sigma": CH, "types": types, "events": evs, "nonefirst": j != 1})
     # outages during which the log GROWS: total (every request fails) and partial (the checkpoint is still served, tiles / proofs fail)
     for j, (types, partial) in enumerate(((["sumdb", "tiles"], True), (["tiles", "sumdb"], True), (["sumdb", "tiles"], False))):
         evs = []
@@ -131,7 +131,7 @@ def c14(work, tier, seed, replay):
     for kind in ("tiles", "pixel", "rekor"):
         sp = work.path("sweep-%s.ndjson" % kind)
         o, dt = run_driver(["tile", "-out", sp, "-pairs", str(npairs), "-samples", "0" if kind == "pixel" else ("100" if tier == "quick" else "1500"),
-                            "-feeder", kind, "-seed", str(seed), "-workers", str(NCPU)], timeout=6000)
+                            "-feeder", kind, "-seed", str(seed), "-workers", str(NCPU), "-chains", "10" if tier == "quick" else "150"], timeout=6000)
         evs = read_ndjson(sp)
         jr2 = tlc(work, "Trace_Tile", cfg_text(spec="JSpec", constants={"Height": 8, "Levels": {0}, "Indices": {0}, "Widths": {1}, "TraceFile": sp},
                                                action_constraints=["Monitor"], postcondition="Done"), name="judge-sweep-" + kind, workers=1, timeout=3600, heap="12g")
@@ -194,7 +194,7 @@ def c18(work, tier, seed, replay):
     vp, tp = work.path("tiles.jsonl"), work.path("tile.ndjson")
     open(vp, "w").write("\n".join(vecs) + "\n")
     o, dt = run_driver(["tile", "-in", vp, "-out", tp, "-pairs", "300" if tier == "quick" else "1200", "-samples", "300" if tier == "quick" else "3000",
-                        "-seed", str(seed), "-workers", str(NCPU)], timeout=6000)
+                        "-seed", str(seed), "-workers", str(NCPU), "-chains", "24" if tier == "quick" else "400"], timeout=6000)
     rep.notes.append(o.strip() + " (%.0fs)" % dt)
     events = read_ndjson(tp)
     fails = []
@@ -212,6 +212,7 @@ def c18(work, tier, seed, replay):
     seqfam.settle(rep, "C18", fails, events, {"Height": 8})
     paths = [e for e in events if e["e"] == "tile.path"]
     proofs = [e for e in events if e["e"] == "tile.proof"]
+    rep.cov["proofs_built_by_one_long_running_feeder_along_growth_chains"] = sum(1 for e in proofs if "/chain" in e["run"])
     rep.cov["evaluations"] = len(events)
     rep.cov["traces_validated_against_impl"] = 1
     rep.cov["distinct_nontrivial"] = len({(e["l"], e["n"], e["w"]) for e in paths}) + len({(e["from"], e["to"]) for e in proofs})
